@@ -4,12 +4,12 @@ VARIABLE done
 Init == done = FALSE
 Next == /\ ~done /\ done' = TRUE
         /\ \A r \in Inbound : ValidIn(r) => PrintT(<<"TEST", ToJson(r)>>)
-        /\ \A r \in Outbound : PrintT(<<"TEST", ToJson(r)>>)
+        /\ \A r \in Outbound : ValidOut(r) => PrintT(<<"TEST", ToJson(r)>>)
         /\ \A r \in Generator : PrintT(<<"TEST", ToJson(r)>>)
 \* table sanity: exactly the rows the requirement names are accepted, the table is total
 Sane == /\ \A r \in Inbound : AcceptIn(r) => ValidIn(r)
         /\ Cardinality({r \in Inbound : ValidIn(r) /\ AcceptIn(r)}) = 4
-        /\ Cardinality({r \in Outbound : AcceptOut(r)}) = 1
+        /\ Cardinality({r \in Outbound : ValidOut(r) /\ AcceptOut(r)}) = 1
 ASSUME Sane
 Spec == Init /\ [][Next]_done
 ====
